@@ -60,6 +60,10 @@ def run_unit(name, rlimit=None, seed=None, timeout=900):
         w = U.Woven(u)
         r['woven'] = w
         r['trusted'] = scan_trusted(w)
+        if w.trusted_changed:
+            r['status'] = 'undecided'
+            r['reason'] = 'the body of a function trusted by contract changed (its contract is an assumption about that text): ' + '; '.join(w.trusted_changed)
+            return r
         path = w.write()
     except (extract.ExtractError, U.WeaveError, extract.rtok.LexError) as e:
         r['status'] = 'undecided'
